@@ -302,6 +302,7 @@ func hC09s2(n, L, vlen int) {
 	if err != nil {
 		return
 	}
+	vAgeLog(db) // the log of the closing session is an old one: sequence ids beyond 16 bits
 	for step := 0; step < L; step++ {
 		var code int
 		if step == 0 {
